@@ -29,6 +29,11 @@ svars == <<phase, k, apps, reqs, early, log, status, closing, answered>>
 SInit(a, rs, e) == /\ phase = "idle" /\ k = 0 /\ apps = a /\ reqs = rs /\ early = e /\ log = <<>> /\ status = 0
                    /\ closing = FALSE /\ answered = <<>>
 
+\* helper operators over the current request
+HandlerIds0 == {x.h : x \in AllRoutes(apps)} \cup {0}
+IsPrefixOfTrace(l, h) == LET t == OnionTrace(apps, reqs[k].req, h, early) IN Len(l) =< Len(t) /\ SubSeq(t, 1, Len(l)) = l
+
+
 \* ------------------------------------------------------------------ steps, one per event of the real loop
 ReadStart == /\ phase \in {"idle", "read"} /\ phase' = "reading"
              /\ UNCHANGED <<k, apps, reqs, early, log, status, closing, answered>>
@@ -54,10 +59,6 @@ Sent == /\ phase = "handled" /\ answered' = Append(answered, [k |-> k, status |-
 \* the peer closed / reset: the loop is left
 Close == /\ phase \in {"reading", "read"} /\ phase' = "closed"
          /\ UNCHANGED <<k, apps, reqs, early, log, status, closing, answered>>
-
-\* helper operators over the current request
-HandlerIds0 == {x.h : x \in AllRoutes(apps)} \cup {0}
-IsPrefixOfTrace(l, h) == LET t == OnionTrace(apps, reqs[k].req, h, early) IN Len(l) =< Len(t) /\ SubSeq(t, 1, Len(l)) = l
 
 \* ------------------------------------------------------------------ invariants of the composition
 \* responses are sent in request order, one per parsed request
